@@ -270,7 +270,11 @@ def replay_round(fname, xs, p, carrier):
         got = Fraction(round_number(val))
         want = Fraction(_m.floor(x + Fraction(1, 2)))
         return got == want
-    tok = T['round' if p is None else 'round2'] if fname == 'round' else T['rhe' if p is None else 'rhe2']
+    if fname == 'round_xp2':
+        tok = T_XP2_ROUND
+        fname = 'round'
+    else:
+        tok = T['round' if p is None else 'round2'] if fname == 'round' else T['rhe' if p is None else 'rhe2']
     got = _one(tok.evaluate(XPathContext(item=1, variables={'a': val, 'p': p})))
     got = Fraction(got)
     pp = p or 0
@@ -308,7 +312,10 @@ def e2_fn_round(ctx):
     funcs=['elementpath/xpath1/_xpath1_functions.py:evaluate__round'])
 def e2_fn_round_xp2(ctx):
     return _rounding_obligation(_registered(P2, 'round'), (int, Decimal, float), (None,), _spec_round, 'round',
-                                "replay_round('round', %(x)s, %(p)s, %(carrier)s)")
+                                "replay_round('round_xp2', %(x)s, %(p)s, %(carrier)s)")
+
+
+T_XP2_ROUND = P2.parse('round($a)')
 
 
 def _spec_rhe(fn, x, p):
@@ -329,3 +336,85 @@ def e2_fn_round_negative_precision(ctx):
 def e2_fn_round_half_to_even(ctx):
     return _rounding_obligation(_registered(P31, 'round-half-to-even'), (int, Decimal, float), (None, 0, 1, 2, -1), _spec_rhe,
                                 'rhe', "replay_round('rhe', %(x)s, %(p)s, %(carrier)s)")
+
+
+# --- E2: idiv / mod over mixed integer, decimal and double carriers, constant divisors, dividend over ALL rationals -----------
+
+from fractions import Fraction  # noqa: E402
+
+E2_DIVISORS = (Fraction(2), Fraction(-2), Fraction(5, 2), Fraction(-5, 2), Fraction(1, 2), Fraction(-3), Fraction(7), Fraction(-1))
+
+
+def _divmod_obligation(symbol, parser, spec_kind, what):
+    q = Queries(timeout_s=30, diff_binary=False)   # z3 4.8.12 times out on the mixed Int/Real floor encoding; 5.1 answers in ms
+    pyfn = _registered(parser, symbol)
+    cex = []
+    notes = []
+    for ca in (int, Decimal, float):
+        for cb in (int, Decimal, float):
+            for d in E2_DIVISORS:
+                if cb is int and d.denominator != 1:
+                    continue
+                a = z3.Int('a') if ca is int else z3.Real('a')
+                bterm = int(d) if d.denominator == 1 and cb is int else z3.RealVal(str(d))
+                # get_operands converts a Decimal operand to float when the other one is a float
+                ta, tb = ca, cb
+                if float in (ca, cb) and Decimal in (ca, cb):
+                    ta = tb = float
+                op1, op2 = PS.Sym(a, ta), PS.Sym(bterm, tb)
+                stubs = {'self.get_operands': lambda fn, context, cls=None, _o=(op1, op2): _o}
+                try:
+                    r = PS.translate(pyfn, [_fnobj(), None], stubs=stubs)
+                except PS.Unsupported as e:
+                    return q.result(not_encodable='%s[%s,%s,b=%s]: %s' % (what, ca.__name__, cb.__name__, d, e))
+                fn = r['fn']
+                ar = _as_real(a)
+                br = z3.RealVal(str(d))
+                tq = fn.trunc(ar / br)
+                want = _as_real(tq) if spec_kind == 'idiv' else ar - br * z3.ToReal(tq)
+                tag = '%s[%s %s %s]' % (what, ca.__name__, what, '%s:%s' % (cb.__name__, d))
+                base = list(r['side'])
+                res, m = q.check(tag + ' raises', base + [r['raised']])
+                if res == 'sat':
+                    cex.append(dict(call='replay_divmod(%r, %r, %r, %r, %r)' % (what, str(mval(m, a)), ca.__name__, str(d), cb.__name__),
+                                    message=tag + ': raises at a=%s' % mval(m, a)))
+                    continue
+                res, m = q.check(tag + ' != spec', base + [_as_real(r['val']) != want])
+                if res == 'sat':
+                    cex.append(dict(call='replay_divmod(%r, %r, %r, %r, %r)' % (what, str(mval(m, a)), ca.__name__, str(d), cb.__name__),
+                                    message='%s: code gives %s, F&O gives %s at a=%s' % (tag, mval(m, _as_real(r['val'])), mval(m, want), mval(m, a))))
+                notes = r['notes']
+    q.samples.append('%s: 3x3 carriers x %d constant divisors' % (what, len(E2_DIVISORS)))
+    return q.result(cex[:12], detail=dict(stubs=sorted(set(notes))))
+
+
+def _carrier_value(xs, carrier):
+    x = Fraction(xs)
+    return {'int': lambda: int(x), 'Decimal': lambda: Decimal(x.numerator) / Decimal(x.denominator),
+            'float': lambda: x.numerator / x.denominator}[carrier]()
+
+
+def replay_divmod(what, a_s, ca, b_s, cb):
+    import math as _m
+    a, b = Fraction(a_s), Fraction(b_s)
+    va, vb = _carrier_value(a_s, ca), _carrier_value(b_s, cb)
+    if isinstance(va, float) and Fraction(va) != a:
+        return True      # not exactly representable as a double: outside the claim
+    if isinstance(va, Decimal) and Fraction(va) != a:
+        return True      # not exactly representable in 28 digits
+    got = _ev(what, a=va, b=vb)
+    tq = _m.trunc(a / b)
+    want = Fraction(tq) if what == 'idiv' else a - b * tq
+    return Fraction(got) == want
+
+
+@ob(engine='z3', budget=120, bound='dividend: all rationals (int/decimal/double carriers, reals for doubles); 8 constant divisors x 3x3 carrier pairs',
+    funcs=[O2 + ':evaluate__idiv_operator', 'elementpath/xpath_tokens/base.py:get_operands (promotion contract)'])
+def e2_idiv_mixed(ctx):
+    return _divmod_obligation('idiv', P31, 'idiv', 'idiv')
+
+
+@ob(engine='z3', budget=120, bound='dividend: all rationals (int/decimal/double carriers, reals for doubles); 8 constant divisors x 3x3 carrier pairs',
+    funcs=[O1 + ':evaluate__mod_operator', 'elementpath/xpath_tokens/base.py:get_operands (promotion contract)'])
+def e2_mod_mixed(ctx):
+    return _divmod_obligation('mod', P31, 'mod', 'mod')
